@@ -134,6 +134,24 @@ let () = iter_lines (fun line ->
       let fs = fields line in
       let cf = zl (List.tl (ints (List.nth fs 0 |> fun x -> "0 " ^ (String.sub x 7 (String.length x - 7))))) and q = zl (ints (List.nth fs 1)) in
       Printf.printf "S %s | C %s ; W%d\n" (prz (asm_idct_ifast cf q)) (prz (c_idct_ifast cf q)) (if c_idct_ifast_ok cf q then 0 else 1)
+  | "huff" :: seed :: ones :: last_dc :: buf :: fb :: blk ->
+      let seed = int_of_string seed and ones = ones = "1" in
+      let tbl off = { h_co = (fun s -> let s = iz s in let si = 1 + ((7 * s + seed + off) mod 16) in
+                                 if ones then zi ((1 lsl si) - 1) else zi (((2654435761 * s + 97 * (seed + off)) land 0xFFFFFFFF) land ((1 lsl si) - 1)));
+                      h_si = (fun s -> zi (1 + ((7 * iz s + seed + off) mod 16))) } in
+      (* 64-bit put_buffer as a decimal string: build the Z from two halves *)
+      let zbig str = let n = Int64.of_string ("0u" ^ str) in
+        let hi = Int64.to_int (Int64.shift_right_logical n 32) and lo = Int64.to_int (Int64.logand n 0xFFFFFFFFL) in
+        Z.add (Z.mul (zi hi) (zi 4294967296)) (zi lo) in
+      let st = { w_buf = zbig buf; w_free = zi (int_of_string fb); w_out = [] } in
+      let block = zl (List.map int_of_string blk) in
+      let show r = let b = r.w_buf in
+        let hi = iz (Z.div b (zi 4294967296)) and lo = iz (Z.modulo b (zi 4294967296)) in
+        Printf.sprintf "%s ; %s %d" (prz r.w_out) (Printf.sprintf "%Lu" (Int64.logor (Int64.shift_left (Int64.of_int hi) 32) (Int64.of_int lo))) (iz r.w_free) in
+      let k = k_encode_block (tbl 5) (tbl 0) block (zi (int_of_string last_dc)) st in
+      let c = c_encode_block (tbl 5) (tbl 0) block (zi (int_of_string last_dc)) st in
+      let fix s = if String.length s > 0 && s.[0] = ' ' then s else " " ^ s in
+      Printf.printf "S%s | C%s\n" (fix (show k)) (fix (show c))
   | "idctint" :: _ ->
       let fs = fields line in
       let x = List.nth fs 0 in
